@@ -364,6 +364,16 @@ class Gen:
                     ops.append(['sets', i, ['s'] + vals])
                     cur = cur[:1 + i] + vals + cur[1 + i + kk:]
                 continue
+            if k in ('list', 'vec', 'cont') and len(cur) - 1 >= 1 and r.random() < 0.05:
+                # a raw little-endian byte string assigned to an integer position (exact width, or longer with a zero tail)
+                i = r.randrange(len(cur) - 1)
+                et = t[1] if k != 'cont' else t[1 + i]
+                if is_basic(et) and et != 'bool':
+                    n_ = self.num(8 * UINT_W[et])
+                    raw = n_.to_bytes(UINT_W[et], 'little') + bytes(r.choice([0, 0, 2]))
+                    ops.append(['setb', i, 'x' + raw.hex()])
+                    cur = cur[:1 + i] + [str(n_)] + cur[2 + i:]
+                    continue
             if k in ('list', 'vec', 'cont') and len(cur) - 1 >= 1 and r.random() < 0.1:
                 # an already hashed (tree-backed) sub-value is stored
                 i = r.randrange(len(cur) - 1)
@@ -472,6 +482,14 @@ class Gen:
         """an operation that violates a constraint of type t in state cur (or None)"""
         r = self.rng
         k = kind(t)
+        if k in ('list', 'vec', 'cont') and len(cur) > 1 and r.random() < 0.12:
+            # a raw byte string that denotes a number too large for the integer position
+            i = r.randrange(len(cur) - 1)
+            et = t[1] if k != 'cont' else t[1 + i]
+            if is_basic(et) and et not in ('bool', 'u256'):
+                w_ = UINT_W[et]
+                raw = bytes(r.getrandbits(8) for _ in range(w_)) + bytes([0] * r.choice([0, 1]) + [r.randint(1, 255)])
+                return ['setb', i, 'x' + raw.hex()]
         if k in ('list', 'vec', 'cont') and len(cur) > 1 and r.random() < 0.25:
             # a view of a non-assignable other type with the same content as what is stored there now
             i = r.randrange(len(cur) - 1)
